@@ -87,6 +87,10 @@ def absent_optional_packages() -> list:
 
 
 # --------------------------------------------------------------------------- harness callables
+class NonFiniteInput(Exception):
+    """Raised by a counted callable (when asked to) for a design vector holding NaN or inf, as a simulation code would."""
+
+
 class Runaway(Exception):
     """Raised by a counted callable when the hard cap of calls is exceeded (nothing stopped the driver)."""
 
@@ -109,6 +113,7 @@ class Counted:
         self.nan_rule = None
         self.raise_rule = None
         self.jac_nan_rule = None  # the Jacobian is NaN there, the value stays finite (e.g. x/|x| at 0)
+        self.raise_on_nonfinite = False  # raise NonFiniteInput when called with a NaN / inf design vector
         self.raised_keys: set[bytes] = set()
         self.nan_keys: set[bytes] = set()
         self.jac_nan_keys: set[bytes] = set()
@@ -132,6 +137,10 @@ class Counted:
         self.calls.append((kind, key, is_complex))
         if not is_complex and key not in self.order:
             self.order[key] = len(self.order) + 1
+        if not np.all(np.isfinite(x.real)):
+            self.state["nonfinite_input_calls"] = self.state.get("nonfinite_input_calls", 0) + 1
+            if self.raise_on_nonfinite:
+                raise NonFiniteInput(f"{self.poly.name} called with {x!r}")
         if len(self.calls) > self.cap:
             self.state["runaway"] = True
             raise Runaway(f"{self.poly.name}: more than {self.cap} calls")
@@ -248,6 +257,9 @@ class HarnessProblem:
             problem.add_observable(fn)  # also a new-iteration observable (default)
         if spec.get("stop_if_nan") is False:
             problem.stop_if_nan = False
+        if spec.get("nonfinite_raises"):
+            for counted in self.counted:
+                counted.raise_on_nonfinite = True
         if spec.get("maximize"):
             problem.minimize_objective = False
         diff = spec.get("diff", "user")
@@ -278,6 +290,14 @@ class HarnessProblem:
                 pts.pop(shift_key, None)
             out.update(pts)
         return out
+
+    def filled_keys(self) -> set:
+        """Keys (bytes) of the database entries that hold at least one output (an output-less entry is not an evaluated point)."""
+        return {point_key(k.wrapped_array) for k, v in self.problem.database.items() if v}
+
+    def n_filled(self) -> int:
+        """Number of database entries holding at least one output (keys of different dtypes at one point count apart)."""
+        return sum(1 for v in self.problem.database.values() if v)
 
     def db_keys(self) -> list:
         return [np.asarray(k.wrapped_array) for k in self.problem.database]
@@ -359,7 +379,10 @@ def opt_cases(draw, caps: dict, names: list, second_names: list | None = None):
     cap = caps[algo]
     linear = cap["linear_only"] or draw(st.integers(0, 7)) == 0
     multi = algo == "MNBI"
-    stop = draw(st.sampled_from(["budget"] * 6 + ["ftol", "xtol", "time", "nan", "nan", "nan_grad", "nan_grad", "kkt"]))
+    stops = ["budget"] * 6 + ["ftol", "xtol", "time", "nan", "nan", "nan_grad", "nan_grad", "kkt"]
+    if cap["library"] == "ScipyOpt" and cap["grad"]:
+        stops += ["nan_grad"] * 4  # value-first algorithms: the ones that hand a NaN design vector to the objective first
+    stop = draw(st.sampled_from(stops))
     if cap["linear_only"] and stop == "ftol":
         stop = "budget"
     if stop == "nan_grad" and not (cap["grad"] and not cap["composite"]):
@@ -430,9 +453,12 @@ def opt_cases(draw, caps: dict, names: list, second_names: list | None = None):
         "maximize": (not multi) and draw(st.integers(0, 4)) == 0, "linear": linear,
         "feasible_x0": bool(cap["linear_only"] or draw(st.integers(0, 3)) > 0), "nan": nan, "fail": None, "diff": diff,
         "jac_nan": jac_nan, "obs": obs, "stop_if_nan": not (stop == "nan_grad" and jac_nan is not None),
+        # like a simulation code, the functions refuse a non-finite design vector (gemseo must never hand them one)
+        "nonfinite_raises": stop == "nan_grad" and jac_nan is not None and draw(st.integers(0, 3)) > 0,
     }
     settings = {
-        "normalize_design_space": draw(st.booleans()) and algo != "MNBI",
+        # NaN design vectors matter most on the unnormalised path (the one a DOE uses too)
+        "normalize_design_space": draw(st.booleans()) and algo != "MNBI" and not (stop == "nan_grad" and draw(st.integers(0, 3)) > 0),
         "use_database": draw(st.integers(0, 7)) > 0 or cap["composite"] or cap["linear_only"] or cap["global"],
         "round_ints": draw(st.integers(0, 3)) > 0,
         "store_jacobian": draw(st.integers(0, 2)) > 0,
@@ -475,6 +501,15 @@ def opt_cases(draw, caps: dict, names: list, second_names: list | None = None):
         if pool:
             second = {"algo": draw(st.sampled_from(sorted(pool))), "max_iter": draw(st.integers(1, n_max)),
                       "reset": draw(st.booleans())}
+        if algo not in SLOW_AFTER_INITIALISATION and draw(st.booleans()):
+            # restart variant: the database is tampered with between the executions (outputs dropped by
+            # Database.filter, output-less store, clear), then the same algorithm starts again from the same x0
+            # with a budget that is not larger
+            kept = draw(st.sampled_from(["none", "none", "objective", "constraints"]))
+            tamper = draw(st.sampled_from([{"op": "filter", "keep": kept}, {"op": "filter", "keep": kept},
+                                           {"op": "store_empty"}, {"op": "clear"}]))
+            second = {"algo": algo, "max_iter": draw(st.integers(1, max(1, n_iter))), "reset": draw(st.booleans()),
+                      "tamper": tamper, "same_start": True}
     return {"algo": algo, "max_iter": n_iter, "stop": stop, "problem": problem, "settings": settings, "extra": extra,
             "seed": seed, "second": second}
 
@@ -598,6 +633,8 @@ def doe_cases(draw, caps: dict, names: list):
         "normalize_design_space": draw(st.integers(0, 7)) == 3,
         "use_database": True,
         "n_processes": n_processes,
+        # the degenerate time limit (fires at the first recorded sample), serial or parallel
+        "max_time": 1e-9 if draw(st.integers(0, 7)) == 5 else 0.0,
         "second": second,
     }
 
